@@ -63,13 +63,16 @@ def build1(hname, hsrc, hkw, san):
     return d, exe, objs
 
 
+BR = {}   # header -> {(line, branch index): count}
+
+
 def gcov_lines(d, objs):
     """file -> {line: count} for the cocls headers"""
     res = {}
     for o in objs:
         if not os.path.exists(o[:-2] + ".gcda"):
             continue
-        p = subprocess.run(["gcov", "--json-format", "--stdout", "-o", d, o], cwd=d, stdout=subprocess.PIPE, stderr=subprocess.DEVNULL)
+        p = subprocess.run(["gcov", "-b", "--json-format", "--stdout", "-o", d, o], cwd=d, stdout=subprocess.PIPE, stderr=subprocess.DEVNULL)
         for chunk in p.stdout.decode(errors="replace").splitlines():
             if not chunk.startswith("{"):
                 continue
@@ -82,8 +85,15 @@ def gcov_lines(d, objs):
                 if not fn.startswith(os.path.realpath(HDR) + os.sep):
                     continue
                 m = res.setdefault(os.path.basename(fn), {})
+                bm = BR.setdefault(os.path.basename(fn), {})
                 for ln in f.get("lines", []):
                     m[ln["line_number"]] = m.get(ln["line_number"], 0) + ln["count"]
+                    # two-way decisions only (no exception edges): (line, index) -> times taken, summed over instantiations
+                    brs = [b for b in ln.get("branches", []) if not b.get("throw")]
+                    if len(brs) >= 2:
+                        for i, b in enumerate(brs):
+                            k = (ln["line_number"], i)
+                            bm[k] = bm.get(k, 0) + b["count"]
     return res
 
 
@@ -188,8 +198,12 @@ def main():
             st = "never-instantiated" if not inside else ("executed" if any(m[ln] > 0 for ln in inside) else "instantiated-not-executed")
             fl.append({"name": name, "lines": [b, e], "state": st,
                        "lines_executable": len(inside), "lines_executed": sum(1 for ln in inside if m[ln] > 0)})
+        bm = BR.get(hdr, {})
+        never = sorted({ln for (ln, i), c in bm.items() if c == 0 and m.get(ln, 0) > 0})
         report["headers"][hdr] = {"lines_executable": len(ex), "lines_executed": len(hit),
                                   "unexecuted_lines": [ln for ln in ex if m[ln] == 0],
+                                  "branch_outcomes": len(bm), "branch_outcomes_taken": sum(1 for c in bm.values() if c > 0),
+                                  "executed_lines_with_an_outcome_never_taken": never,
                                   "functions": fl}
     with open(os.path.join(outdir, "coverage.json"), "w") as f:
         json.dump(report, f, indent=1, sort_keys=True)
@@ -210,6 +224,13 @@ def main():
         for i, v in enumerate([len(fl), a, b, c, r["lines_executable"], r["lines_executed"]]):
             tot[i] += v
     L.append("| **total** | %d | %d | %d | %d | %d | %d |" % tuple(tot))
+    L += ["", "## Decisions: executed lines with a (non-exception) branch outcome that no harness ever takes", "",
+          "gcov branch data (`-b`), exception edges dropped, summed over template instantiations; compiler-generated decisions (loops over",
+          "parameter packs, `if constexpr` remnants, short-circuit operators) are included, so this list over-approximates.", ""]
+    for hdr, r in report["headers"].items():
+        if r["branch_outcomes"]:
+            L.append("* **%s**: %d of %d outcomes taken; lines with an outcome never taken: %s" % (
+                hdr, r["branch_outcomes_taken"], r["branch_outcomes"], ", ".join(map(str, r["executed_lines_with_an_outcome_never_taken"])) or "none"))
     L += ["", "## Function bodies not executed by any harness", ""]
     for hdr, r in report["headers"].items():
         miss = [x for x in r["functions"] if x["state"] != "executed"]
